@@ -26,6 +26,11 @@ MOLS = {
     "HOH": "H 0 0.757 0.587; O 0 0 0.1; H 0 -0.757 0.587",      # repeated element, not contiguous
     "CH3": "C 0 0 0; H 0 1.0 0.3; H 0.87 -0.5 0.3; H -0.87 -0.5 0.3",
     "He": "He 0 0 0",
+    # labelled atoms: pyscf keys atom_grid / the atomic tables on atom_symbol (element + label), so two atoms of one
+    # element may carry DIFFERENT angular layouts
+    "H2O_lab": "O 0 0 0.1; H1 0 0.757 0.587; H2 0 -0.757 0.587",
+    "H2_lab": "H1 0 0 0; H2 0 0 0.74",
+    "CH3_lab": "C 0 0 0; H1 0 1.0 0.3; H 0.87 -0.5 0.3; H1 -0.87 -0.5 0.3",
 }
 PRUNES = {"nwchem": gen_grid.nwchem_prune, "sg1": gen_grid.sg1_prune, "treutler": gen_grid.treutler_prune, "none": None}
 
@@ -86,7 +91,10 @@ def observe(cfg, rid):
     g = CiderGrids(mol, lmax=cfg["lmax"])
     ref = dft.Grids(mol)
     for o in (g, ref):
-        if cfg["atom_grid"] is not None:
+        if isinstance(cfg["atom_grid"], dict):
+            o.atom_grid = {k: tuple(v) for k, v in cfg["atom_grid"].items()}
+            o.level = cfg["level"]
+        elif cfg["atom_grid"] is not None:
             o.atom_grid = tuple(cfg["atom_grid"])
         else:
             o.level = cfg["level"]
@@ -191,6 +199,12 @@ def configs(tier, rnd):
         out.append(dict(base, mol="HOH", align=al, atom_grid=[7, 14]))
     for lm in (1, 2, 3, 6, 10, 12):
         out.append(dict(base, mol="H2O", lmax=lm, atom_grid=[6, 26]))
+    # per-label layouts (dict atom_grid; atoms not named fall back to the level)
+    for m, ag in (("H2O_lab", {"H1": [8, 50]}), ("H2O_lab", {"H1": [6, 26], "H2": [6, 14]}), ("H2O_lab", {"H2": [9, 38], "O": [10, 50]}),
+                  ("H2_lab", {"H2": [5, 14]}), ("H2_lab", {"H1": [7, 26], "H2": [7, 50]}), ("CH3_lab", {"H1": [6, 38]}),
+                  ("CH3_lab", {"H": [5, 14], "H1": [5, 26]}), ("H2O", {"H": [6, 26]}), ("H2O_lab", None)):
+        for pr in ("nwchem", "none"):
+            out.append(dict(base, mol=m, atom_grid=ag, prune=pr, spin=1 if m.startswith("CH3") else 0))
     out.append(dict(base, mol="H2O", sort=False))
     out.append(dict(base, mol="CH3", spin=1, sort=False, align=1))
     for thr in ([1e-2], [1e-4, 1e-2], [1e-1], [1e-6]):
